@@ -28,7 +28,23 @@ WORK = os.path.join(VERIF, "work")
 EVID = os.path.join(VERIF, "evidence")
 REPLAY = os.path.join(VERIF, "replay")
 CORPUS = os.path.join(VERIF, "corpus")
-NCPU = os.cpu_count() or 4
+def _ncpu():
+    """Worker count: all cores, fewer when the machine is already oversubscribed (many checks being developed at once)."""
+    n = os.cpu_count() or 4
+    if os.environ.get("VERIF_NCPU"):
+        return max(1, int(os.environ["VERIF_NCPU"]))
+    try:
+        la = os.getloadavg()[0]
+    except OSError:
+        la = 0
+    if la > 3 * n:
+        return max(2, n // 4)
+    if la > 1.5 * n:
+        return max(2, n // 2)
+    return n
+
+
+NCPU = _ncpu()
 
 ALLOWED_AXIOMS = {
     # standard-library axioms that may appear (DESIGN.md section 3); each is named in the evidence
